@@ -153,7 +153,7 @@ def step (st : St) (toks : List String) : St × String :=
     (match unhexB hx with
      | some b =>
        let t := cstr b
-       (match load (t.length + 1) t with
+       (match load (parseFuel t.length) t with
         | .ok (v, rest) => (st, "ok " ++ showJ v ++ " used=" ++ toString (t.length - rest.length))
         | .error e => (st, errS e))
      | none => (st, "bad-op"))
